@@ -241,11 +241,12 @@ type Stats struct {
 	Shortfall   []string
 	Notes       []string
 	Violations  int64
+	kfWitness   map[string][]byte // sig -> smallest diverted case (replay file content)
 }
 
 func newStats(id string) *Stats {
 	return &Stats{ID: id, Nontrivial: map[uint64]struct{}{}, Labels: map[string]int64{}, KFHits: map[string]int64{},
-		KFMatched: map[string]int64{}, Parts: map[string]int64{}, Exhaustive: map[string]bool{}}
+		KFMatched: map[string]int64{}, Parts: map[string]int64{}, Exhaustive: map[string]bool{}, kfWitness: map[string][]byte{}}
 }
 
 func (s *Stats) label(l string) {
@@ -323,6 +324,9 @@ func (s *Stats) flush() {
 		binary.LittleEndian.PutUint64(buf[8*i:], h)
 	}
 	os.WriteFile(base+".hashes", buf, 0o644)
+	for sig, data := range s.kfWitness {
+		os.WriteFile(fmt.Sprintf("%s.kf.%s.json", base, sig), data, 0o644)
+	}
 }
 
 // ---------------------------------------------------------------------------
@@ -376,6 +380,10 @@ func (p *Prop[C]) eval(st *Stats, part string, c C) *Violation {
 		if len(sigs) > 0 {
 			st.mu.Lock()
 			st.KFHits[sigs[0]]++
+			if old, ok := st.kfWitness[sigs[0]]; !ok || len(cj) < len(old) {
+				data, _ := json.MarshalIndent(replayFile{Property: p.ID, Part: part, Violation: v, Case: cj}, "", " ")
+				st.kfWitness[sigs[0]] = data
+			}
 			st.mu.Unlock()
 			// diverted cases are counted as evaluations but not as non-trivial coverage
 			st.record(part, cj, false, append(labels, "diverted:"+sigs[0]))
@@ -526,4 +534,12 @@ func TestReplay(t *testing.T) {
 	if err := os.WriteFile(filepath.Join(outDir(), "replay.json"), data, 0o644); err != nil {
 		t.Fatal(err)
 	}
+}
+
+func mustJSON(v interface{}) []byte {
+	data, err := json.Marshal(v)
+	if err != nil {
+		panic(err)
+	}
+	return data
 }
